@@ -24,9 +24,17 @@ Second part (namespace `Cascette.Props.C11.Disk`): DiskCache cut at the `disk.*`
 remove histories, puts of threads with separate file names (no failure, every value retrievable,
 books), and the witness schedules of the races the tree has (shared `<stem>.tmp`, put vs remove,
 get vs remove, expired-path get vs put).
+
+Third part (namespace `Cascette.Props.C11.Multi`): MultiLayerCacheImpl over MemoryCache layers
+(Model/MultiConc: every operation a walk over the layers plus one promotion-tracker access, cut
+at `ml.layer.after_<op>` and at the layers' own schedule points): provenance of get answers for
+every schedule, a remove that loses no race empties every layer WHATEVER the tracker knows, and
+witness schedules: a stored key without a tracker entry, the operations are not atomic across
+the layers (finding ml-not-atomic-across-layers).
 -/
 import Cascette.Proofs.MemConc
 import Cascette.Proofs.DiskConc
+import Cascette.Proofs.MultiConc
 namespace Cascette.Props.C11
 open Cascette.Spec.CacheMap (Key Val Ref)
 open Cascette.Spec.Interleave
@@ -566,3 +574,146 @@ theorem disk_expired_two_readers_witness :
   decide
 
 end Cascette.Props.C11.Disk
+
+/-! # MultiLayerCacheImpl (Model/MultiConc)
+
+The multi-layer cache over MemoryCache layers: every operation a walk over the layers (each
+per-layer call = the MemoryCache operation of Model/MemConc, cut at its own schedule points) plus
+one access to the promotion tracker, cut at `ml.layer.after_<op>` between two layers and between
+a layer and the tracker.  Any number of layers, threads, operations; ANY schedule. -/
+
+namespace Cascette.Props.C11.Multi
+open Cascette.Spec.CacheMap (Key Val)
+open Cascette.Spec.Interleave
+open Cascette.Model.CacheAssoc Cascette.Proofs.CacheAssoc
+open Cascette.Model.MemCache (Config Entry Store State)
+open Cascette.Model.MemConc (detVic)
+open Cascette.Model.MultiConc
+open Cascette.Proofs.MultiConc
+open Cascette.Proofs.MemConc (runSched_inv)
+open Cascette.Model
+
+/-- **a multi-layer get returns a value some put wrote for that key** (full statement: every
+operation of the model, any number of layers, every schedule).  Whatever a `get k` answered, at
+any point of any schedule, is the value of an entry some layer held under `k` at the start, or of
+a `put k` / `put_to_layer k` in one of the programs — whichever layer served it, however the
+walk over the layers was interleaved with other threads' walks. -/
+theorem ml_get_reads_some_put (cfg : Config) (vic : Store → Nat → List Key) (s0 : MState)
+    (progs : List (List MOp)) (sched : List Nat) (t : MThread) (k : Key) (v : Val)
+    (ht : t ∈ (runSched (machine cfg vic) (sys s0 progs) sched).threads)
+    (hr : (MOp.get k, MOut.val (some v)) ∈ t.results) :
+    (∃ ls ∈ s0.layers, ∃ e, (k, e) ∈ ls.store ∧ e.val = v) ∨
+    (∃ p ∈ progs, MOp.put k v ∈ p ∨ ∃ l, MOp.putTo k v l ∈ p) := by
+  let Wr : Key → Val → Prop := fun k v =>
+    (∃ ls ∈ s0.layers, ∃ e, (k, e) ∈ ls.store ∧ e.val = v) ∨
+    (∃ p ∈ progs, MOp.put k v ∈ p ∨ ∃ l, MOp.putTo k v l ∈ p)
+  have h0 : MWInv Wr (sys s0 progs) := by
+    refine ⟨fun ls hls p hp => Or.inl ⟨ls, hls, p.2, hp, rfl⟩, ?_⟩
+    intro t ht
+    obtain ⟨p, hp, rfl⟩ := List.mem_map.mp ht
+    refine ⟨trivial, ?_, fun r hr => by cases hr⟩
+    intro op hop
+    cases op with
+    | put k v => exact Or.inr ⟨p, hp, Or.inl hop⟩
+    | putTo k v l => exact Or.inr ⟨p, hp, Or.inr ⟨l, hop⟩⟩
+    | get k => trivial
+    | contains k => trivial
+    | remove k => trivial
+    | clear => trivial
+  have h := runSched_inv (machine cfg vic) (MWInv Wr) (fun y i => mwinv_stepAt cfg vic y i) sched _ h0
+  exact (h.threads t ht).2.2 _ hr k v rfl rfl
+
+/-- **a remove that loses no race removes the key from every layer, whatever the promotion
+tracker knows.**  From ANY state — any number of layers holding anything (a value stored by a
+`put` still in flight in another thread, by `put_to_layer`, by a promotion), ANY tracker
+contents, in particular NO tracker entry for the key — a `remove k` that runs with no other
+thread taking a step: once it has returned, no layer holds `k`, `k` has no tracker entry, and
+its answer is `true` exactly when some layer held `k`.  (The promotion tracker is not a
+membership filter: see `ml_stored_key_without_tracker_witness`.) -/
+theorem ml_remove_alone_empties_every_layer (cfg : Config) (vic : Store → Nat → List Key)
+    (s0 : MState) (k : Key) (hne : s0.layers ≠ []) (sched : List Nat)
+    (hq : quiescent (machine cfg vic) (runSched (machine cfg vic) (sys s0 [[.remove k]]) sched) = true) :
+    let y := runSched (machine cfg vic) (sys s0 [[.remove k]]) sched
+    (∀ ls ∈ y.shared.layers, lookup k ls.store = none) ∧ k ∉ y.shared.tracked ∧
+    y.threads.map (·.results) =
+      [[(.remove k, .bool (s0.layers.any (fun ls => (lookup k ls.store).isSome)))]] := by
+  have hlen : 0 < (stores s0).length := by
+    rw [stores_length]
+    exact List.length_pos_iff.mpr hne
+  have h := runSched_inv (machine cfg vic) (RmSys k (stores s0))
+    (fun y i => rmSys_stepAt cfg vic k hlen y i) sched _ (rmSys_init k s0)
+  have hfin := rmSys_quiescent cfg vic k h hq
+  refine ⟨?_, hfin.2.1, ?_⟩
+  · intro ls hls
+    exact hfin.1 ls.store (List.mem_map.mpr ⟨ls, hls, rfl⟩)
+  · rw [hfin.2.2]
+    simp only [stores, List.any_map]
+    rfl
+
+/-! ## witness schedules (kernel-checked runs of the model; tests of single schedules) -/
+
+def cfgM : Config := { maxEntries := 1000, maxBytes := none, policy := .lru, defaultShort := false }
+
+abbrev runM (s : MState) (progs : List (List MOp)) (sched : List Nat) : Sys MState MThread Unit :=
+  runSched (machine cfgM (detVic cfgM)) (sys s progs) sched
+
+def ent (v : Val) : Entry := { val := v, size := v.length, created := 0, last := 0, hits := 1, short := false }
+
+/-- key 0 in both layers: `put_to_layer(0, 9797, 1)` then `put(0, e5)` -/
+def both0 : MState :=
+  { layers := [{ store := [(0, ent [0xe5])], count := 1, bytes := 1, clock := 2 },
+               { store := [(0, ent [0x97, 0x97])], count := 1, bytes := 2, clock := 2 }],
+    tracked := [0] }
+
+/-- **the promotion tracker is not a membership filter.**  (a) thread 0's `put 0` has inserted
+into layer 0 and not returned yet (it stands before its counter updates); thread 1's `contains 0`
+answers `true` — and the key has no tracker entry.  (b) after `put_to_layer(0, v, 1)` run alone
+the key is stored and has no tracker entry either. -/
+theorem ml_stored_key_without_tracker_witness :
+    (let y := runM (init 2) [[.put 0 [9]], [.contains 0]] [0, 0, 1, 1]
+     y.threads.map (·.results) = [[], [(.contains 0, .bool true)]] ∧ y.shared.tracked = [] ∧
+     y.shared.layers.map (fun ls => lookup 0 ls.store |>.map (·.val)) = [some [9], none]) ∧
+    (let y := runM (init 2) [[.putTo 0 [9] 1]] [0, 0, 0, 0, 0]
+     quiescent (machine cfgM (detVic cfgM)) y = true ∧ y.shared.tracked = [] ∧
+     y.shared.layers.map (fun ls => lookup 0 ls.store |>.map (·.val)) = [none, some [9]]) := by
+  decide
+
+/-- **the schedule of the missed seeded change, on the code as written.**  Thread 0 `put 0`
+stands after its map insert; thread 1 runs `contains 0` (true) and `remove 0` to completion;
+thread 0 finishes.  The remove answers `true`, the key is in no layer at the end, both layers'
+books are right — and the key HAS a tracker entry again (the put's tracker insert came last):
+a tracker entry does not mean the key is stored either. -/
+theorem ml_remove_after_visible_inflight_put_witness :
+    let y := runM (init 2) [[.put 0 [9]], [.contains 0, .remove 0]] [0, 0, 1, 1, 1, 1, 1, 1, 1, 0, 0, 0]
+    quiescent (machine cfgM (detVic cfgM)) y = true ∧
+    y.threads.map (·.results) = [[(.put 0 [9], .unit)], [(.contains 0, .bool true), (.remove 0, .bool true)]] ∧
+    y.shared.layers.map (·.store) = [[], []] ∧ y.shared.layers.map (·.count) = [0, 0] ∧
+    y.shared.layers.map (·.bytes) = [0, 0] ∧ y.shared.tracked = [0] := by
+  decide
+
+/-- **⟂ operations are not atomic across the layers (finding ml-not-atomic-across-layers): a get
+served from below a half-done remove.**  Key 0 is in both layers (`e5` above `9797`); thread 1's
+`remove 0` has emptied layer 0 and not yet layer 1 when thread 0's `get 0` walks down: it answers
+`9797` — not what a get before the remove answers (`e5`), not what one after it answers (none),
+and nobody else writes. -/
+theorem ml_get_below_half_done_remove_witness :
+    let y := runM both0 [[.get 0], [.remove 0]] [1, 1, 1, 0, 0, 0, 1, 1, 1, 1]
+    quiescent (machine cfgM (detVic cfgM)) y = true ∧
+    y.threads.map (·.results) = [[(.get 0, .val (some [0x97, 0x97]))], [(.remove 0, .bool true)]] ∧
+    y.shared.layers.map (·.store) = [[], []] ∧
+    (runM both0 [[.get 0]] [0, 0]).threads.map (·.results) = [[(.get 0, .val (some [0xe5]))]] ∧
+    (runM both0 [[.remove 0, .get 0]] [0, 0, 0, 0, 0, 0, 0, 0, 0, 0]).threads.map (·.results) =
+      [[(.remove 0, .bool true), (.get 0, .val none)]] := by
+  decide
+
+/-- **⟂ same finding: two removes of one key both answer `true`.**  Thread 0 removes the key
+from layer 0, thread 1 finds layer 0 empty and removes it from layer 1: each reports that it
+removed the key; no order of two atomic removes gives `true` twice. -/
+theorem ml_two_removes_both_true_witness :
+    let y := runM both0 [[.remove 0], [.remove 0]] [0, 1, 1, 0, 0, 0, 0, 1, 1, 1]
+    quiescent (machine cfgM (detVic cfgM)) y = true ∧
+    y.threads.map (·.results) = [[(.remove 0, .bool true)], [(.remove 0, .bool true)]] ∧
+    y.shared.layers.map (·.store) = [[], []] := by
+  decide
+
+end Cascette.Props.C11.Multi
